@@ -72,6 +72,16 @@ def judge(a, b, edges, optimum=None):
             adj[u].append(v)
         optimum = kuhn_optimum(a, b, adj)
     require(len(matching) == optimum, 'matching is not maximum', a=a, b=b, edges=edges, got=len(matching), optimum=optimum)
+    # the solver object resets its working data on every call: a repeated call returns a maximum matching again
+    # (judged on a second solver, called twice, so that the cost stays one extra run on the small cases only)
+    if a * b <= 25 or len(edges) % 4 == 0:
+        hk = HopcroftKarp(g)
+        m1 = hk()
+        m2 = hk()
+        require(len(m1) == optimum and len(m2) == optimum, 'repeated call of the same HopcroftKarp object does not return a maximum matching',
+                a=a, b=b, edges=edges, first=len(m1), second=len(m2), optimum=optimum)
+        require(all((u, v) in eset for (u, v) in m2) and len({u for u, _ in m2}) == len(m2) and len({v for _, v in m2}) == len(m2),
+                'repeated call returns an invalid matching', a=a, b=b, edges=edges, matching=m2)
     g2 = BipartiteGraph(a, b, edges)
     uc, vc = minimum_vertex_cover(g2)
     require(all(0 <= u < a for u in uc) and all(0 <= v < b for v in vc), 'cover vertex out of range', uc=uc, vc=vc)
